@@ -12,6 +12,7 @@ RULE = ("select trees over two base tables A(K,V) and B(K,W): every tree up to d
         "applied to the rows of the preceding snapshot: inner = pairs in left-major order satisfying ON; left = plus each "
         "unmatched left row once, null padded; result columns named table.column for named inputs; unknown names => error, "
         "never a panic.  non-trivial = contains a join; distinct = distinct command lists")
+RULE = RULE + ('  Unknown column names are also placed underneath NOT, unary minus, bit inversion and inside AND / OR.')
 ASSUMPTIONS = ["the cfb container is modelled as a name -> bytes map (DESIGN 2.3)"]
 
 A_COLS = [mk("K", "i16", pk=True), mk("V", ("str", 8), null=True)]
@@ -104,7 +105,11 @@ def contents(rng):
 def join_conditions():
     return [eq(col("A.K"), col("B.K")), eq(col("A.K"), col("B.W")), ("bin", "lt", col("A.K"), col("B.K")),
             ("lit", 0), ("lit", 1), eq(col("A.V"), ("lit", "b")), eq(col("A.Nope"), col("B.K")), eq(col("K"), col("B.K")),
-            ("and", eq(col("A.K"), col("B.K")), ("un", "not", col("B.W")))]
+            ("and", eq(col("A.K"), col("B.K")), ("un", "not", col("B.W"))),
+            # an unknown name wherever it sits in the condition: under NOT, unary minus, bit inversion, inside AND / OR
+            ("un", "not", eq(col("A.K"), col("B.Nope"))), ("un", "neg", col("B.Nope")), ("un", "bitnot", col("Nope")),
+            ("or", ("lit", 1), ("un", "not", col("A.Nope"))), ("and", ("lit", 0), ("bin", "add", col("A.K"), ("un", "neg", col("Nope.K")))),
+            ("un", "not", ("un", "not", col("B.W")))]
 
 
 def trees(depth, rng, full):
@@ -112,6 +117,7 @@ def trees(depth, rng, full):
     out = [T("A"), T("B"), T("Nope"),
            ("sel", ("t", "A"), ["V", "K"], None), ("sel", ("t", "A"), [], eq(col("K"), ("lit", 2))),
            ("sel", ("t", "A"), ["Nope"], None), ("sel", ("t", "A"), [], eq(col("Nope"), ("lit", 2))),
+           ("sel", ("t", "A"), [], ("un", "not", col("Nope"))), ("sel", ("t", "A"), ["K"], ("un", "neg", col("A.K"))),
            ("sel", ("t", "A"), ["V"], ("bin", "gt", col("K"), ("lit", 1)))]
     for kind in ("inner", "left"):
         for on in join_conditions():
@@ -123,6 +129,8 @@ def trees(depth, rng, full):
         out.append(("sel", j, ["A.V"], ("bin", "ge", col("B.K"), ("lit", 2))))
         out.append(("sel", j, ["Nope"], None))
         out.append(("sel", j, [], eq(col("W"), ("lit", 1))))
+        out.append(("sel", j, [], ("un", "not", col("B.Nope"))))
+        out.append(("sel", j, ["A.K"], ("un", "bitnot", ("un", "neg", col("Nope")))))
         # operands that are filtered / projected sub-selects (projected ones are anonymous: unqualified names)
         out.append(("sel", (kind, ("sel", ("t", "A"), [], ("bin", "gt", col("K"), ("lit", 1))), T("B"), on), [], None))
         out.append(("sel", (kind, ("sel", ("t", "A"), ["K"], None), T("B"), eq(col("K"), col("B.K"))), [], None))
